@@ -64,6 +64,38 @@ CHAIN_HITS3 = [("c", "bc", "ab"), ("ab", "bc", "c"), ("bc", "b", "ab"), ("bc", "
                ("ac", "b", "bc")]
 
 
+# an inferior rule with two superiors of which the first (by name) has no protocluster near it (or none at all)
+ORD_MULTISUP = [
+    [_rule("r0", C1, 2, "c"), _rule("r1", C2, 2, "a"), _rule("r2", C1, 5, "b", sup=["r0", "r1"])],
+]
+# a negated neighbour condition: only the evaluation of the gene itself decides (nothing masks a lost neighbour)
+ROT_EXONS = [[_rule("r0", C1, 2, "a and not c"), _rule("r1", C2, 2, "a")]]
+
+
+def exon_ring_bases(wide: bool) -> Iterator[Dict[str, Any]]:
+    """ rings with one multi-exon gene (2-3 exons of 3 bases, introns of 2; both strands) carrying profile a
+        and one neighbour carrying c just inside / at the cutoff of the gene's OUTER exon on either side;
+        every rotation then puts the origin into every exon and intron, with one or two exons on a side """
+    cutoff = C1
+    for exons_n in (2, 3):
+        exons = [[20 + 5 * k, 23 + 5 * k] for k in range(exons_n)]
+        low, high = exons[0][0], exons[-1][1]
+        for strand in (-1, 1):
+            for side in ("before", "after"):
+                for dist in ((cutoff - 1, cutoff) if not wide else (0, cutoff - 1, cutoff, cutoff + 1)):
+                    other = [low - dist - 3, low - dist, -strand] if side == "before" else [high + dist, high + dist + 3, -strand]
+                    genes = [[low, high, strand, exons], other]
+                    hits = ["a", "c"]
+                    if wide:
+                        genes.append([42, 45, 1])
+                        hits.append("")
+                    for rules in ROT_EXONS:
+                        case = chk.make_case(48, True, [g[:2] for g in genes], [g[2] for g in genes], hits, rules)
+                        case["genes"][0].append(exons)
+                        if chk.valid_case(case):
+                            yield case
+
+
 def rotation_families(tier: str) -> Dict[str, Dict[str, Any]]:
     wide = tier != "quick"
     gaps = [0, C1 - 1, C1, C2, FAR] if not wide else [-2, 0, C1 - 1, C1, C1 + 1, C2 - 1, C2, FAR]
@@ -82,6 +114,8 @@ def rotation_families(tier: str) -> Dict[str, Dict[str, Any]]:
         # genes without hits that end exactly where a neighbourhood ends (membership by one base)
         "rot-nbh3": {"lens": (3, 4, 3), "gaps": [0, 1, 2, 3, FAR], "hits": [("", "a", ""), ("c", "a", "a")],
                      "rulesets": ROT_NBH},
+        # reverse / forward strand multi-exon genes cut by the origin in every exon and intron
+        "rot-exon": {"explicit": "exons", "wide": wide},
         # rings shorter than twice the cutoff (the search window becomes the whole record)
         "rot-tiny2": {"lens": (3, 3), "gaps": [0, 1, 2, 7, 8, 9, 10, 11, 12], "hits": [("a", "b")],
                       "rulesets": [[_rule("r0", 8, 1, "a and b")], [_rule("r0", 8, 1, "a")]]},
@@ -96,6 +130,9 @@ def order_families(tier: str) -> Dict[str, Dict[str, Any]]:
         "ord3": {"lens": (3, 4, 3), "gaps": gaps,
                  "hits": [("a", "b", "a"), ("ab", "c", "b"), ("b", "a", "c")][:3 if wide else 2], "rulesets": ORD_RULESETS,
                  "leads": [0, 3], "tails": [0, 6], "cuts": -2 if not wide else -1},
+        "ordsup2": {"lens": (3, 4, 3), "gaps": [0, C1 - 1, FAR] if not wide else [0, C1 - 1, C1, C2, FAR],
+                    "hits": [("ab", "b", "c"), ("b", "ab", "c"), ("ab", "b", "")], "rulesets": ORD_MULTISUP,
+                    "leads": [0], "tails": [3], "cuts": -2},
         "ordchain2": {"lens": (3, 4), "gaps": [0, C1 - 1, C2 - 1, FAR] if not wide else [0, C1 - 1, C1, C2 - 1, C2, FAR],
                       "hits": CHAIN_HITS2, "rulesets": ORD_CHAINS, "leads": [0, 3], "tails": [0, 6],
                       "cuts": -2 if not wide else 0},
@@ -113,6 +150,9 @@ def order_families(tier: str) -> Dict[str, Dict[str, Any]]:
 
 def ring_bases(fam: Dict[str, Any]) -> Iterator[Dict[str, Any]]:
     """ one base record per ring layout of the family (origin at the start of gene 0) """
+    if fam.get("explicit") == "exons":
+        yield from exon_ring_bases(fam.get("wide", False))
+        return
     lens = fam["lens"]
     count = len(lens)
     serial = 0
@@ -130,7 +170,7 @@ def ring_bases(fam: Dict[str, Any]) -> Iterator[Dict[str, Any]]:
                     yield case
 
 
-PARTS = {"rot-tiny2": 1, "rot-nbh3": 8, "rot-chain3": 8, "rot-pair3": 12, "rot-sup3": 10, "rot-ext3": 8, "rot-cond3": 10, "rot-chain4": 10,
+PARTS = {"rot-exon": 2, "ordsup2": 3, "rot-tiny2": 1, "rot-nbh3": 8, "rot-chain3": 8, "rot-pair3": 12, "rot-sup3": 10, "rot-ext3": 8, "rot-cond3": 10, "rot-chain4": 10,
          "ord3": 10, "ord2": 2, "ordchain2": 3, "ordchain3": 4, "orddiamond": 4}
 
 
@@ -269,6 +309,13 @@ def compare_orders(case: Dict[str, Any]) -> List[Tuple[str, bool, str, Dict[str,
                     "" if one == two else f"rule {name}: with rules {ref_names}: {one}; with rules {names}: {two}",
                     where))
 
+    # a superior can only explain a difference if one of its (expected) protoclusters touches one of the rule's
+    areas = chk.expected_areas(case)
+
+    def touches(superior: str, inferior: str) -> bool:
+        return any(mine[2] & theirs[2] for mine in areas if mine[0] == inferior
+                   for theirs in areas if theirs[0] == superior)
+
     for rule in rules:
         name = rule["n"]
         by_set: Dict[Any, Any] = {}
@@ -282,7 +329,7 @@ def compare_orders(case: Dict[str, Any]) -> List[Tuple[str, bool, str, Dict[str,
                 compare("order-independent", name, by_set[key], entry)
                 continue
             by_set[key] = entry
-            present = frozenset(s for s in rule.get("sup") or [] if s in names)
+            present = frozenset(s for s in rule.get("sup") or [] if s in names and touches(s, name))
             if present in by_superiors:
                 compare("subset-independent", name, by_superiors[present], entry)
             else:
